@@ -409,6 +409,9 @@ def compute_domains_gcc(domains: NDArray, parameters: NDArray) -> int:
     """
     n = len(domains)
     m = (len(parameters) - 1) // 2  # number of values
+    for j in range(m):
+        if parameters[1 + j] > parameters[1 + m + j]:  # a lower bound above its capacity: nothing satisfies the constraint
+            return PROP_INCONSISTENCY
     bounds_nb = 2 * n + 2
     ranks = np.zeros((n, 2), dtype=np.uint16)
     bounds = np.zeros(bounds_nb, dtype=np.int32)
